@@ -11,14 +11,14 @@ import (
 // bankSites: the closed set of SM call sites that move, mint or burn coins through types.BankKeeper.
 // key: function | atom ; value: reason + which properties' pairing rule accounts for it.
 var bankSites = map[string]string{
-	"keeper.Keeper.Delegate | SendCoinsFromAccountToModule(account->alliance)":                 "stake enters custody; paired with TotalTokens += amount (C01.pair.delegate)",
-	"keeper.Keeper.CompleteUnbondings | SendCoinsFromModuleToAccount(alliance->account)":       "matured unbonding paid out; paired with bucket deletion (C01.pair.complete, C02.payloop)",
-	"keeper.Keeper.CompleteUnbondings | BurnCoins(alliance)":                                   "sweep of virtual staking tokens returned to the module account (C11.sweep)",
-	"keeper.Keeper.DeductAssetsWithTakeRate | SendCoinsFromModuleToModule(alliance->feeCollector)": "take rate; paired with TotalTokens decrease (C01.pair.takerate)",
-	"keeper.Keeper.slashUndelegations | SendCoinsFromModuleToModule(alliance->feeCollector)":   "slashed part of a pending unbonding; paired with entry balance decrease (C01.pair.slash)",
-	"keeper.Keeper.RebalanceBondTokenWeights | MintCoins(alliance)":                            "virtual staking tokens, immediately delegated (C11.mint)",
-	"keeper.Keeper.RebalanceBondTokenWeights | BurnCoins(bonded_tokens_pool)":                  "virtual staking tokens returned by Unbond (C11.burn)",
-	"keeper.Keeper.AddAssetsToRewardPool | SendCoinsFromAccountToModule(account->alliance_rewards)": "reward coins withdrawn from distribution pass through to the rewards pool (C12.backed)",
+	"keeper.Keeper.Delegate | SendCoinsFromAccountToModule(account->alliance)":                       "stake enters custody; paired with TotalTokens += amount (C01.pair.delegate)",
+	"keeper.Keeper.CompleteUnbondings | SendCoinsFromModuleToAccount(alliance->account)":             "matured unbonding paid out; paired with bucket deletion (C01.pair.complete, C02.payloop)",
+	"keeper.Keeper.CompleteUnbondings | BurnCoins(alliance)":                                         "sweep of virtual staking tokens returned to the module account (C11.sweep)",
+	"keeper.Keeper.DeductAssetsWithTakeRate | SendCoinsFromModuleToModule(alliance->feeCollector)":   "take rate; paired with TotalTokens decrease (C01.pair.takerate)",
+	"keeper.Keeper.slashUndelegations | SendCoinsFromModuleToModule(alliance->feeCollector)":         "slashed part of a pending unbonding; paired with entry balance decrease (C01.pair.slash)",
+	"keeper.Keeper.RebalanceBondTokenWeights | MintCoins(alliance)":                                  "virtual staking tokens, immediately delegated (C11.mint)",
+	"keeper.Keeper.RebalanceBondTokenWeights | BurnCoins(bonded_tokens_pool)":                        "virtual staking tokens returned by Unbond (C11.burn)",
+	"keeper.Keeper.AddAssetsToRewardPool | SendCoinsFromAccountToModule(account->alliance_rewards)":  "reward coins withdrawn from distribution pass through to the rewards pool (C12.backed)",
 	"keeper.Keeper.ClaimDelegationRewards | SendCoinsFromModuleToAccount(alliance_rewards->account)": "reward payout (C12.spender)",
 }
 
@@ -61,7 +61,9 @@ func ruleBankSites(id string, props []string, floor int, filter func(atom string
 }
 
 func init() {
-	ruleBankSites("C01.spenders", []string{"C01", "C15"}, 5, func(a string) bool { return strings.Contains(a, "alliance") && !strings.Contains(a, "alliance_rewards") },
+	ruleBankSites("C01.spenders", []string{"C01", "C15"}, 5, func(a string) bool {
+		return strings.Contains(a, "alliance") && !strings.Contains(a, "alliance_rewards")
+	},
 		"closed set of call sites that move coins of the module custody account")
 	ruleBankSites("C11.whomints", []string{"C11"}, 3, func(a string) bool { return strings.HasPrefix(a, "MintCoins") || strings.HasPrefix(a, "BurnCoins") },
 		"closed set of mint/burn sites")
@@ -425,7 +427,7 @@ func init() {
 			} else {
 				r.OK(fk, "accumulated coins are sent", "every success exit after an accumulation passes the transfer, is guarded by an empty accumulator, or by the zero counter", r.P(send))
 			}
-			r.Check(!fa.blockReaches(send.Block(), phi.Block()) , fk, "sent once", "the transfer is outside the asset loop", "the transfer is inside the asset loop: the accumulator would be sent repeatedly", r.P(send))
+			r.Check(!fa.blockReaches(send.Block(), phi.Block()), fk, "sent once", "the transfer is outside the asset loop", "the transfer is inside the asset loop: the accumulator would be sent repeatedly", r.P(send))
 		}})
 
 	register(&Rule{ID: "C01.pair.slash", Props: []string{"C01", "C07"}, Floor: 5,
